@@ -33,6 +33,9 @@ def cases(tier, seed):
             for o in orders:
                 N = {1: 9, 2: 6, 3: 5}[D] if (o or 0) % 2 == 0 else {1: 10, 2: 5, 3: 4}[D]
                 N = zoo.nontrivial_N(name, N)
+                if D == spec["dims"][0] and (o == orders[0]) and not spec["linear"] and any(k in zoo.TUPLE_ARGS for k in zoo.SPECS[name]["gen"](__import__("numpy").random.default_rng(0), D, 0)):
+                    # boundary values: the leading entry of every coefficient tuple exactly 0.0 (e.g. no drag / no reaction term), default order 2
+                    out.append(dict(kind="ad", cls=name, D=D, N=N, order=2, lite=(tier == "quick"), zeros=True, rs=[seed, env.crc(name), D, 2, 2], cost={1: 1, 2: 2, 3: 6}[D]))
                 if D == spec["dims"][0] and (o == orders[0]):
                     out.append(dict(kind="ad", cls=name, D=D, N=N, order=o, lite=(tier == "quick"), defaults=True, rs=[seed, env.crc(name), D, o or 0, 1], cost={1: 1, 2: 2, 3: 6}[D]))
                 out.append(dict(kind="ad", cls=name, D=D, N=N, order=o, lite=(tier == "quick"), rs=[seed, env.crc(name), D, o or 0], cost={1: 1, 2: 2, 3: 6}[D]))
@@ -88,6 +91,10 @@ def run_case(case, bus, ex):
             it["kw"]["order"] = order
     else:
         it = zoo.make_intent(rng, name, D, N, variant=int(rng.integers(0, spec["nvar"])), order=order)
+        if case.get("zeros"):
+            for k_, v_ in it["kw"].items():
+                if k_ in zoo.TUPLE_ARGS and k_.startswith(("linear", "normalized_linear")) and isinstance(v_, list) and len(v_) > 2:
+                    v_[0] = 0.0
     if name in zoo.ARRAY_CLASSES:
         for k in list(it["kw"]):
             if k in zoo.ARRAY_ARGS and isinstance(it["kw"][k], float):   # documented traced form is the (D,) array (scalar form is a Python float)
@@ -157,7 +164,7 @@ def run_case(case, bus, ex):
             return cls(D, N, **kw)
 
         g = lambda val: make(val)(uj)
-        psig = sig + (pname, form, "defaults" if case.get("defaults") else "random")
+        psig = sig + (pname, form, "defaults" if case.get("defaults") else ("zeros" if case.get("zeros") else "random"))
         pinfo = dict(info, parameter=pname, form=form)
         try:
             primal, dv = jax.jvp(g, (jnp.asarray(base),), (jnp.asarray(tp),))
